@@ -19,6 +19,8 @@ use hpo::{HpoSet, HpoTerm};
 #[derive(Clone, Copy)]
 pub struct Table {
     sym: bool,
+    /// values shifted to [-0.5, 0.5): user similarities may be negative
+    signed: bool,
     salt: u64,
 }
 
@@ -31,7 +33,20 @@ impl Table {
         }
     }
     fn val(&self, a: u32, b: u32) -> f32 {
-        self.k(u64::from(a), u64::from(b)) as f32 / 64.0
+        let k = self.k(u64::from(a), u64::from(b)) as f32;
+        if self.signed {
+            (k - 32.0) / 64.0
+        } else {
+            k / 64.0
+        }
+    }
+    fn val64(&self, a: u32, b: u32) -> f64 {
+        let k = self.k(u64::from(a), u64::from(b)) as f64;
+        if self.signed {
+            (k - 32.0) / 64.0
+        } else {
+            k / 64.0
+        }
     }
 }
 
@@ -44,8 +59,10 @@ impl Similarity for Table {
 fn parse_spec(s: &str) -> Option<Table> {
     let salt = s.get(1..)?.parse::<u64>().ok()?;
     match s.as_bytes().first()? {
-        b't' => Some(Table { sym: false, salt }),
-        b's' => Some(Table { sym: true, salt }),
+        b't' => Some(Table { sym: false, signed: false, salt }),
+        b's' => Some(Table { sym: true, signed: false, salt }),
+        b'n' => Some(Table { sym: false, signed: true, salt }),
+        b'm' => Some(Table { sym: true, signed: true, salt }),
         _ => None,
     }
 }
@@ -127,7 +144,7 @@ pub fn exec(it: &mut Interp, toks: &[&str], out: &mut Vec<String>) -> bool {
             for x in &ia {
                 for y in &ib {
                     v32.push(tab.val(*x, *y));
-                    v64.push(tab.k(u64::from(*x), u64::from(*y)) as f64 / 64.0);
+                    v64.push(tab.val64(*x, *y));
                 }
             }
             let s4 = comb.calculate(&Matrix::new(ia.len(), ib.len(), &v32));
